@@ -450,7 +450,11 @@ def b_linalg(c):
         x = data(tuple(c["s"]), 0.3, 2.7, 0, cplx)
         ax = axis_arg(c["ax"])
         o = {"none": None, "2": 2, "3": 3, "1": 1, "inf": onp.inf, "-inf": -onp.inf, "fro": "fro", "nuc": "nuc", "0.5": 0.5}[st]
-        return (lambda v: la.norm(v, o, ax, c["kd"])), x, {}
+        if c["kd"]:
+            return (lambda v: la.norm(v, o, ax, keepdims=True)), x, {}
+        if c["id"] % 2:
+            return (lambda v: la.norm(v, ord=o, axis=ax)), x, {}
+        return (lambda v: la.norm(v, o, ax)), x, {}
     batch = tuple(c["s"])
     n, m = c["ia"], c["ib"] or c["ia"]
     M = data(batch + (n, m), 0.5, 2.5, 0, cplx)
